@@ -527,7 +527,8 @@ def run_trace(params: dict) -> tuple[dict, dict]:
             gq = np.asarray(pot.function_gradient(np.array(pos, dtype=float).copy())[1], dtype=float)
             pq = np.array(pos, dtype=float)
             lo_, hi_ = np.array([b[0] for b in bounds]), np.array([b[1] for b in bounds])
-            proj = np.where((pq <= lo_) & (gq > 0), 0.0, np.where((pq >= hi_) & (gq < 0), 0.0, gq))
+            # L-BFGS-B's `projgr`: the step -g cut off at the box, component by component
+            proj = np.where(gq < 0, np.maximum(pq - hi_, gq), np.minimum(pq - lo_, gq))
             r["pg"] = float(np.max(np.abs(proj)))
         except Exception:  # noqa: BLE001
             r["pg"] = None
